@@ -61,6 +61,10 @@ class SoftwareEosRepulseManager:
     def stop(self):
         """Stop software repulse."""
         self.machine.switch_controller.remove_switch_handler_by_keys(self._handlers)
+        if self._button_is_active:
+            # the coil may have been (re-)enabled in software and the button release will not be seen any more
+            self._button_is_active = False
+            self.driver.hw_driver.disable()
 
     def _button_active(self, **kwargs):
         del kwargs
